@@ -88,13 +88,14 @@ SiteOf(c, e) ==
   ELSE IF e.ev = "Cli" /\ c = "Total.exception" THEN e.tb
   ELSE IF e.ev = "Report" /\ c = "Render.plain" THEN e.plain
   ELSE IF e.ev = "Report" /\ c = "Render.colour" THEN e.colour
-  ELSE IF e.ev = "Report" THEN StageOf(ps)
+  ELSE IF e.ev \in {"Report", "Timeout"} THEN StageOf(ps)
   ELSE IF e.ev = "Cli" THEN e.mode
   ELSE e.ev
 
 Verdict(e, b, other) ==
   [tid |-> (IF e.ev \in {"Cli", "Compile"} THEN e.tid ELSE ps.job.tid), line |-> l, ev |-> e.ev,
-   clauses |-> {<<c, SiteOf(c, e)>> : c \in b}, against |-> other]
+   clauses |-> {<<c, SiteOf(c, e)>> : c \in b}, against |-> other,
+   input |-> (IF e.ev \in {"Report", "Cli"} THEN e.key ELSE "")]
 
 Init == l = 1 /\ ps = DeadProc /\ seen = EmptyFn /\ bad = 0 /\ skipped = 0
 
